@@ -341,6 +341,18 @@ def install(files, root, kind="local"):
         for n, b in files.items():
             tracefs.STORE[f"{root}/{n}"] = b
         return "vfs://" + root
+    if kind == "zip":
+        # the product directory 'prod' inside an archive; root is the archive's path without extension
+        import zipfile
+
+        from fsspec.implementations.zip import ZipFileSystem
+
+        os.makedirs(os.path.dirname(root), exist_ok=True)
+        with zipfile.ZipFile(root + ".zip", "w") as z:
+            for n, b in files.items():
+                z.writestr("prod/" + n, b)
+        ZipFileSystem.clear_instance_cache()  # fsspec caches archive instances (and their member tables) by path
+        return f"zip://prod::{root}.zip"
     if kind == "lvfs":
         from vf import stagefs
 
@@ -377,3 +389,11 @@ def uninstall(files, root, kind):
         from vf import stagefs
 
         shutil.rmtree(stagefs.base() + root, ignore_errors=True)
+    elif kind == "zip":
+        from fsspec.implementations.zip import ZipFileSystem
+
+        ZipFileSystem.clear_instance_cache()
+        try:
+            os.remove(root + ".zip")
+        except FileNotFoundError:
+            pass
